@@ -46,6 +46,7 @@ def _one(ctx, case, script=None, pending=None, rand_script=None):
     for k in case["kwargs"]: ctx.count(f"kw={k}")
     bad = ORACLE(case, impl)
     if bad:
+        if case.get("start_as_array"): bad += " [start_coord was passed as the caller's own numpy array, which the caller incremented in place after the generator had returned and before the metadata was read]"
         ctx.violate(f"{case['gen']} {case['rows']}x{case['cols']} {case['kwargs']}: {bad}", dict(case=case, draws=impl["draws"], rands=impl["rands"], edges=impl["edges"], meta={k: impl[k] for k in ('fully_connected','visited','start','n_accessible_cells','max_tree_depth')}))
     if pending is not None: pending.append((case, impl, gens.request(case, impl)))
     return impl
